@@ -202,34 +202,36 @@ def second? : List Nat → Option Nat
   | [_, b] => some b
   | _ => none
 
-/-- the body of `for path in self.cumulenes` in `stereogenic_cumulenes`
-    (`path[1]` of a one-atom path would be an `IndexError`; `cumulenes` only builds paths of ≥ 2 atoms: shown as KeyError) -/
-def stereogenicPath (single : Nat → Bool) (mol : MolView) (path : List Nat) : Except PyErr (Option Ends) :=
-  match path, path.reverse with
-  | p0 :: p1 :: _, l0 :: l1 :: _ =>
-    match nbrsOf mol p0 with
+/-- the body of `for path in self.cumulenes` in `stereogenic_cumulenes` for `path[0], path[1], path[-1], path[-2]` -/
+def stereogenicEnds (single : Nat → Bool) (mol : MolView) (p0 p1 l0 l1 : Nat) : Except PyErr (Option Ends) :=
+  match nbrsOf mol p0 with
+  | .error e => .error e
+  | .ok nf =>
+    match nbrsOf mol l0 with
     | .error e => .error e
-    | .ok nf =>
-      match nbrsOf mol l0 with
+    | .ok nl =>
+      match exAnyM (badNbr single mol p1) nf with
       | .error e => .error e
-      | .ok nl =>
-        match exAnyM (badNbr single mol p1) nf with
+      | .ok true => .ok none
+      | .ok false =>
+        match exAnyM (badNbr single mol l1) nl with
         | .error e => .error e
         | .ok true => .ok none
         | .ok false =>
-          match exAnyM (badNbr single mol l1) nl with
+          match exFilterM (heavyNbr mol p1) nf with
           | .error e => .error e
-          | .ok true => .ok none
-          | .ok false =>
-            match exFilterM (heavyNbr mol p1) nf with
+          | .ok nn =>
+            match exFilterM (heavyNbr mol l1) nl with
             | .error e => .error e
-            | .ok nn =>
-              match exFilterM (heavyNbr mol l1) nl with
-              | .error e => .error e
-              | .ok mn =>
-                match nn.map (·.1), mn.map (·.1) with
-                | a :: as, b :: bs => .ok (some ⟨a, b, second? (a :: as), second? (b :: bs)⟩)
-                | _, _ => .ok none
+            | .ok mn =>
+              match nn.map (·.1), mn.map (·.1) with
+              | a :: as, b :: bs => .ok (some ⟨a, b, second? (a :: as), second? (b :: bs)⟩)
+              | _, _ => .ok none
+
+/-- `path[1]` of a one-atom path would be an `IndexError`; `cumulenes` only builds paths of ≥ 2 atoms (shown as KeyError) -/
+def stereogenicPath (single : Nat → Bool) (mol : MolView) (path : List Nat) : Except PyErr (Option Ends) :=
+  match path, path.reverse with
+  | p0 :: p1 :: _, l0 :: l1 :: _ => stereogenicEnds single mol p0 p1 l0 l1
   | _, _ => .error .keyError
 
 /-- `stereogenic_cumulenes` (dict keyed by the path) -/
